@@ -219,7 +219,8 @@ def updater(chk: Check, repo: Repo) -> None:
     chk.ob("tracker-gets-mutex-read", f.site(), kw.get("read_state_awaitable") == "read_state_mutex", f"_StateTracker({kw})", key="updater|tracker-read")
     cfgf = CFG(f.node)
     mf = cfgf.must_facts()
-    st_ = [n for n in cfgf.nodes if n.kind == "stmt" and n.ast is not None and any(call_name(c) == "tracker.start" for c in calls(n.ast))]
+    tvars = {n.targets[0].id for n in walk_local(f.node) if isinstance(n, ast.Assign) and len(n.targets) == 1 and isinstance(n.targets[0], ast.Name) and isinstance(n.value, ast.Call) and call_name(n.value) == "_StateTracker"}
+    st_ = [n for n in cfgf.nodes if n.kind == "stmt" and n.ast is not None and any(isinstance(c.func, ast.Attribute) and c.func.attr == "start" and isinstance(c.func.value, ast.Name) and c.func.value.id in tvars for c in calls(n.ast))]
     chk.ob("register-starts-only-when-running", f.site(), len(st_) == 1 and ("self.started", True) in mf[st_[0].id], "a tracker registered later is started only when the updater is running (connected)", key="updater|register-start")
     ini = S("__init__"); chk.unit(ini)
     sem = [n for n in walk_local(ini.node) if isinstance(n, ast.Assign) and ast.unparse(n.targets[0]) == "self._semaphore"]
